@@ -14,7 +14,7 @@ LEVEL = "exploration"
 NUMBA_THREADS = 16
 MAX_JOBS = 4
 CLAIM = {
-    "text": "Exploration by runtime monitoring under schedule stress: every parallel=True kernel named by the property (extract_tim, extract_bpass, mask_channels, dedisperse, subband, remove_zerodm, invert_freq, compute_online_moments(_basic), downsample_1d/2d_mean_parallel) is driven directly on exact-arithmetic inputs of shapes from (1 channel, 1 sample) to > 10^5 iterations, red-zone framed, under threads {1,2,3,4,8,16} (thorough: 1..16) x parallel chunk sizes {0,1,2,3,7,64} x R repetitions, with 4 worker processes oversubscribing the 16 cores and a second pass pinned to two cores (16 OpenMP threads time-slicing); all outputs must be bit-identical to each other and to a numpy evaluation of the kernel's definition (and to .py_func on small shapes), canaries must be intact, and a deliberately racy probe kernel run under exactly the same configurations must have produced wrong answers, otherwise the run is inconclusive. Rounds 7-8 added: one reader re-used at falling and rising thread counts for band-pass, zero-DM removal, collapse, high-DM sub-banding into 1-52 sub-bands and fold with band counts that do not divide the channel count. Round 9 added: low-DM dedispersion (runs of channels sharing a delay) and channel masking with non-64-multiple channel counts in the reader-reuse sweep.",
+    "text": "Exploration by runtime monitoring under schedule stress: every parallel=True kernel named by the property (extract_tim, extract_bpass, mask_channels, dedisperse, subband, remove_zerodm, invert_freq, compute_online_moments(_basic), downsample_1d/2d_mean_parallel) is driven directly on exact-arithmetic inputs of shapes from (1 channel, 1 sample) to > 10^5 iterations, red-zone framed, under threads {1,2,3,4,8,16} (thorough: 1..16) x parallel chunk sizes {0,1,2,3,7,64} x R repetitions, with 4 worker processes oversubscribing the 16 cores and a second pass pinned to two cores (16 OpenMP threads time-slicing); all outputs must be bit-identical to each other and to a numpy evaluation of the kernel's definition (and to .py_func on small shapes), canaries must be intact, and a deliberately racy probe kernel run under exactly the same configurations must have produced wrong answers, otherwise the run is inconclusive. Rounds 7-8 added: one reader re-used at falling and rising thread counts for band-pass, zero-DM removal, collapse, high-DM sub-banding into 1-52 sub-bands and fold with band counts that do not divide the channel count. Round 9 added: low-DM dedispersion (runs of channels sharing a delay) and channel masking with non-64-multiple channel counts in the reader-reuse sweep. Round 10 added: Filterbank.downsample with reads of 2^22 samples x channels under 1/2/4/7/16 threads.",
     "design_ref": "DESIGN.md section 3 (C19), 2.2, 2.3",
     "note": "Schedules are sampled, not enumerated: sensitivity is reported as the racy probe's failure count under the same (threads, chunk, repetition) set. Moment kernels are compared bit-for-bit across schedules and with numpy two-pass moments within float32 tolerance (their fastmath float32 recurrences are not bit-comparable with a Python evaluation).",
     "technique": "runtime monitoring: schedule stress (threads x chunk sizes x repetitions, oversubscription) with bit-exact differential oracle, red-zone canaries and a racy sensitivity probe",
